@@ -354,10 +354,12 @@ class PFITSReader(Filterbank):
         if skipback >= gulp:
             msg = f"readsamps ({gulp}) must be > skipback ({skipback})"
             raise ValueError(msg)
-        nreads, lastread = divmod(nsamps, (gulp - skipback))
-        if lastread < skipback:
-            nreads -= 1
-            lastread = nsamps - (nreads * (gulp - skipback))
+        # same plan as FilReader.read_plan: full blocks every (gulp - skipback)
+        # samples, each inside the range, then the shorter remainder
+        nreads = (nsamps - gulp) // (gulp - skipback) + 1
+        lastread = nsamps - (nreads * (gulp - skipback))
+        if lastread == skipback:
+            lastread = 0
         blocks = [(ii, gulp, -skipback) for ii in range(nreads)]
         if lastread != 0:
             blocks.append((nreads, lastread, 0))
@@ -365,13 +367,15 @@ class PFITSReader(Filterbank):
         for ii, block, skip in track(blocks, description=description, disable=quiet):
             startsub, startsamp = divmod(start, self.sub_hdr.subint_samples)
             nsubs = (
-                nsamps + self.sub_hdr.subint_samples - 1
+                startsamp + block + self.sub_hdr.subint_samples - 1
             ) // self.sub_hdr.subint_samples
 
             data = self._fitsfile.read_subints(startsub, nsubs)
-            data = data[startsamp : startsamp + nsamps]
+            data = data[startsamp : startsamp + block]
             start += block + skip
-            yield block, ii, data.ravel()
+            # float32, like the blocks of a 32-bit SIGPROC file (the streaming
+            # kernels are compiled for uint8 and float32 input)
+            yield block, ii, data.ravel().astype(np.float32, copy=False)
 
 
 @attrs.define(auto_attribs=True, slots=True)
